@@ -170,6 +170,13 @@ func (vc *VC) generate() {
 			}
 			vc.assume(f.evalClause(r, env))
 		}
+		for _, r := range con.Assumes {
+			if !f.modeOK(r.Mode) {
+				continue
+			}
+			vc.assume(f.evalClause(r, env))
+			vc.assumptions["assumed at entry of "+FuncName(fn)+": "+r.Text] = true
+		}
 		if con.HasAssigns {
 			vc.topLocs = vc.evalLocs(con.Assigns, env)
 		}
